@@ -100,6 +100,13 @@ def showEv : WsEv → String
 
 def wireLine (fs : List String) : Option String :=
   match fs with
+  | ["uinc", chunks] =>
+    match parseAll hexOr (chunks.splitOn ",") with
+    | some cs =>
+      match decodeChunks [] cs with
+      | some r => some (",".intercalate (r.1.map showBytes))
+      | none => some "fail"
+    | none => none
   | ["fenc", fin, rsv, op, key, pl] =>
     match parseBit fin, rsv.toNat?, op.toNat?, parseReason key, hexOr pl with
     | some fin, some rsv, some op, some key, some pl =>
